@@ -283,17 +283,34 @@ def _track_stored(op, i, cfg, st):
         if (c in cfg["clusters"] and g not in cfg["rej"] and (c, t, p) in st["bpart"] and (c, g, t, p) not in st["seen"]
                 and -2**63 <= thr < 2**63 and ts >= thr and not (cfg["mode"].split("@")[0] in ("allow", "both", "edeny_allow") and (g == 0 or g > 9))):
             st["must"][(c, g)] = (i, t)
+        # "sure": the largest timestamp among the commits of the group that were CERTAINLY stored - handed to the ring (known
+        # cluster, accepted by the lists, broker offset for the partition, not too old on arrival) and either the partition's
+        # first commit or one with a log position above every earlier one of that partition (then it is placed as the newest).
+        # The timestamp is the ARRIVED commit's own: a min-distance merge rewrites the ring slot, not the group's newest time.
+        order = int(op[7])
+        if (c in cfg["clusters"] and storage_accept(*list_verdicts(cfg, g)) and (c, t, p) in st["bpart"]
+                and -2**63 <= thr < 2**63 and ts >= thr):
+            top = st["ord"].get((c, g, t, p))
+            if top is None or order > top:
+                cur = st["sure"].get((c, g))
+                if cur is None or ts > cur[0]:
+                    st["sure"][(c, g)] = (ts, i)
+        if (c, g, t, p) not in st["ord"] or order > st["ord"][(c, g, t, p)]:
+            st["ord"][(c, g, t, p)] = order
         st["seen"].add((c, g, t, p))
     elif k == "DT":
         c, t = int(op[2]), int(op[3])
         st["bpart"] = {x for x in st["bpart"] if not (x[0] == c and x[1] == t)}
         st["seen"] = {x for x in st["seen"] if not (x[0] == c and x[2] == t)}
+        st["ord"] = {x: v for x, v in st["ord"].items() if not (x[0] == c and x[2] == t)}
         for key in [x for x, v in st["must"].items() if x[0] == c and v[1] == t]:
             del st["must"][key]
     elif k == "DG":
         c, g, t = int(op[2]), int(op[3]), int(op[4])
         st["seen"] = {x for x in st["seen"] if not (x[0] == c and x[1] == g and (t == 0 or x[2] == t))}
+        st["ord"] = {x: v for x, v in st["ord"].items() if not (x[0] == c and x[1] == g and (t == 0 or x[2] == t))}
         st["must"].pop((c, g), None)
+        st["sure"].pop((c, g), None)
 
 
 def oracle_c09(line, impl_line):
@@ -304,7 +321,7 @@ def oracle_c09(line, impl_line):
     out = []
     commits = {}     # (cluster, group) -> [min ts, max ts] of the commits sent so far
     found = {}       # (cluster, group) -> index of the last FetchConsumer that reported it, reset by deletions touching it
-    stored = {"bpart": set(), "seen": set(), "must": {}}
+    stored = {"bpart": set(), "seen": set(), "must": {}, "ord": {}, "sure": {}}
     foundts = {}     # (cluster, group) -> newest commit timestamp visible in the reply recorded in `found`
     for i, op in enumerate(ops):
         k = op[0]
@@ -365,6 +382,11 @@ def oracle_c09(line, impl_line):
                     out.append((i, "expiry", "%s: the commit at op %d (%s) is not older than the expiry time (expire-group %d, cutoff %d) and "
                                 "nothing else could drop it, yet the group / its topic %d is not reported: %r"
                                 % (" ".join(op), m[0], " ".join(ops[m[0]]), cfg["expire"], thr, m[1], replies[i][:160])))
+            sure = stored["sure"].get((c, g))
+            if replies[i] == "NIL" and sure is not None and sure[0] >= thr:
+                out.append((i, "expiry", "%s: the commit at op %d (%s) was stored (placed as the partition's newest) and its own timestamp %d is "
+                            "not older than the cut-off %d (expire-group %d, min-distance %d), yet the group is reported as not found"
+                            % (" ".join(op), sure[1], " ".join(ops[sure[1]]), sure[0], thr, cfg["expire"], cfg["mindist"])))
             vis = foundts.get((c, g))
             if replies[i] == "NIL" and last_found is not None and vis is not None and vis >= thr:
                 # the group was reported at op last_found with a stored commit that is still inside the expiry time and nothing
@@ -614,7 +636,7 @@ def gen_delete(rng, i=0):
     """One deletion / expiry history.  Clusters share group and topic names; groups share topics; some groups have one topic."""
     intervals = rng.choice([1, 2, 3, 4, 10])
     expire = rng.choice([100, 1000, 604800])
-    mindist = rng.choice([0, 0, 0, 1, 5])
+    mindist = rng.choice([0, 0, 0, 1, 5, 5, 30])
     clusters = rng.choice([[1, 2], [1, 2], [1, 2], [1], [1, 2, 3]])
     via = ""
     if probe_supports_empty():
@@ -714,6 +736,32 @@ def gen_delete(rng, i=0):
             w.pcount.pop((c, t), None)
             for key in [k for k in w.boff if k[0] == c and k[1] == t]:
                 del w.boff[key]
+        elif r >= 0.78 and r < 0.84 and not huge and h.mindist > 0:
+            # the group's newest commit is MERGED into the previous ring slot (it arrives less than min-distance after it; the slot
+            # keeps the previous timestamp): the group's newest commit time is still the arrived commit's own.  Asked exactly
+            # expire-group after it (cut-off = its timestamp: not older, must be reported) and one second later (may go).
+            cands = [(cc, t) for (cc, t), n in sorted(w.pcount.items()) if cc in clusters]
+            if not cands:
+                continue
+            cc, t = rng.choice(cands)
+            g = rng.choice(groups)
+            p0 = rng.randrange(0, w.pcount[(cc, t)])
+            w.broker(cc, t, p=p0)
+            gap = rng.choice([1, 300, 999, min(h.mindist * 1000 - 1, 4000), h.mindist * 1000 - 1])
+            w.commit(cc, g, t, p=p0, ts=h.now * 1000 - gap)
+            w.commit(cc, g, t, p=p0, ts=h.now * 1000)
+            w.fetch_all()
+            h.now += expire
+            w.fetch_lists()
+            h.add("FX", h.now, cc, g)
+            w.fetch_lists()
+            h.now += 1
+            w.fetch_lists()
+            h.add("FX", h.now, cc, g)
+            w.fetch_lists()
+            h.now += 1
+            w.fetch_all()
+            h.tags.add("merged-newest-commit-at-expiry-boundary")
         elif r >= 0.84 and r < 0.90 and not huge:
             # the most recently appended commit is OLDER than the group's newest one: a fresh commit on one partition, then the
             # first commit of another partition with an old (but not too old) timestamp; the clock then passes the old one only
